@@ -60,7 +60,7 @@ pub fn align(exp: &SCode, act: &SCode) -> Aligned {
 	}
 	map[na] = ie as Idx;
 	let m = |x: Idx| -> Idx { map.get(x as usize).copied().unwrap_or(x) };
-	let mut code = SCode { max_stack: act.max_stack, max_locals: act.max_locals, ..Default::default() };
+	let mut code = SCode { max_stack: act.max_stack, max_locals: act.max_locals, empty_line_table: act.empty_line_table, empty_local_table: act.empty_local_table, ..Default::default() };
 	let mut k = 0usize;
 	while k < na {
 		if fold_at[k] {
